@@ -65,8 +65,15 @@ ENCODED = [MetadorMeta.__setitem__, MetadorMeta.__delitem__, MetadorMeta.get, Me
 FILE = schemas.get("core.file", (0, 1, 0))
 IMG = schemas.get("core.imagefile", (0, 1, 0))
 DIR = schemas.get("core.dir", (0, 1, 0))
-SCHEMA = {"F": ("core.file", FILE), "I": ("core.imagefile", IMG), "D": ("core.dir", DIR)}
-PARENTS = {"core.file": ["core.file"], "core.imagefile": ["core.file", "core.imagefile"], "core.dir": ["core.dir"]}
+# harness-registered family (vt/testplugins, on PYTHONPATH): two sibling schemas under one parent
+AA = schemas.get("vt.aa", (0, 1, 0))
+B1 = schemas.get("vt.bone", (0, 1, 0))
+B2 = schemas.get("vt.btwo", (0, 1, 0))
+SCHEMA = {"F": ("core.file", FILE), "I": ("core.imagefile", IMG), "D": ("core.dir", DIR),
+          "A": ("vt.aa", AA), "B1": ("vt.bone", B1), "B2": ("vt.btwo", B2)}
+PARENTS = {"core.file": ["core.file"], "core.imagefile": ["core.file", "core.imagefile"], "core.dir": ["core.dir"],
+           "vt.aa": ["vt.aa"], "vt.bone": ["vt.aa", "vt.bone"], "vt.btwo": ["vt.aa", "vt.btwo"]}
+QUERY_NAMES = ("core.file", "core.imagefile", "core.dir", "vt.aa", "vt.bone", "vt.btwo")
 _cnt = [0]
 
 
@@ -79,6 +86,12 @@ def mkobj(s):
         return FILE(filename="f%d.txt" % n, encodingFormat="text/plain", contentSize=n, sha256="ab" * 32, **rich)
     if s == "I":
         return IMG(filename="i%d.png" % n, encodingFormat="image/png", contentSize=n, sha256="cd" * 32, width=n, height=2, **rich)
+    if s == "A":
+        return AA(x=n)
+    if s == "B1":
+        return B1(x=n, one=n)
+    if s == "B2":
+        return B2(x=n, two=n)
     return DIR(name="dir%d" % n)
 
 
@@ -363,7 +376,7 @@ def check_meta(mc, md):
                 return ("membership/version compatibility wrong", p, name)
             if m.get(name, (0, 0, 0)) is not None and False:
                 return ("x",)
-        for name in ("core.file", "core.imagefile", "core.dir"):
+        for name in QUERY_NAMES:
             expect = [s for s in have if name in PARENTS[s]]
             got = m.get(name)
             if not expect:
@@ -378,10 +391,12 @@ def check_meta(mc, md):
                     return ("parent view has the wrong class", p, name, type(got).__name__)
                 if name == "core.file" and got.filename != src.filename:
                     return ("parent view shows different data", p, name)
+                if name == "vt.aa" and got.x != src.x:
+                    return ("parent view shows different data", p, name)
         if list(m.query("core.doesnotexist")) or "core.doesnotexist" in m:
             return ("unknown schema reported", p)
     # container / group level queries
-    for name in ("core.file", "core.imagefile", "core.dir"):
+    for name in QUERY_NAMES:
         for start in [None] + [p for p in md.tree]:
             got = sorted(n.name for n in (mc.metador.query(name) if start is None else mc[start].metador.query(name)))
             want = sorted("/" + p for p in md.tree
@@ -438,8 +453,11 @@ def check_toc(mc, md):
         return ("schema records differ from schemas in use", sch, used)
     if (M.METADOR_PACKAGES_PATH in nodes) != bool(used):
         return ("package records present/absent wrongly", bool(used))
-    if M.METADOR_PACKAGES_PATH in nodes and len(nodes[M.METADOR_PACKAGES_PATH].keys()) != 1:
-        return ("unexpected package records", list(nodes[M.METADOR_PACKAGES_PATH].keys()))
+    if M.METADOR_PACKAGES_PATH in nodes:  # package records exactly for the providers of the schemas in use
+        want_pk = sorted({schemas.provider(schemas.PluginRef(name=from_ep_name(ep)[0], version=from_ep_name(ep)[1])).name for ep in used})
+        have_pk = sorted(k.split("__")[0] for k in nodes[M.METADOR_PACKAGES_PATH].keys())
+        if want_pk != have_pk:
+            return ("package records differ from the providers of the schemas in use", have_pk, want_pk)
     # every bookkeeping entity is where it belongs: the one TOC at the root, metadata directories next to an
     # existing user node (no stale copies anywhere else in the file)
     for p in nodes:
